@@ -513,22 +513,20 @@ DBL_NEAR = [(0.5, -0.5), (2.5, -2.5), (0.25, 0.5), (1.25, 1.75), (1.25, 1.5), (1
 INT_DBL = {0: 0.0, 1: 1.0, 2: 2.0, -1: -1.0, -3: -3.0, 42: 42.0, 4294967296: 4294967296.0, -4294967296: -4294967296.0,
            1 << 53: 9007199254740992.0}
 
-# Input classes on which the unmodified library is known to contradict RFC 6902 (notes/jpatch.md, "Open findings").  They are
-# generated only when named in VERIF_JPATCH_OPEN (comma separated, or "all"); then the oracle reports them as violations.
+# Input classes on which the library contradicted RFC 6902 before its repairs (notes/jpatch.md).  All are generated and judged on
+# every run (the switch VERIF_JPATCH_OPEN that used to gate them is gone: nothing of this family is tolerated any more).
 OPEN_CLASSES = ("f64-text-compare", "nul-in-string", "increment-overflow", "array-index", "parent-pointers")
-_open_env = [x for x in os.environ.get("VERIF_JPATCH_OPEN", "").split(",") if x]
 # f64-text-compare / nul-in-string are repaired in /repo (ef0c81e, e38ce78): generated on every run.  The others are findings of
 # the deepening round (notes/jpatch.md; repaired since): increment-overflow (signed overflow in `increment`), array-index (array index segments
 # are read with iwatoi; "-" addresses the last element), parent-pointers (children taken over by _jbl_copy_node_data keep the
 # `parent` pointer of the node they came from).
 OPEN_ON = set(OPEN_CLASSES)     # all repaired in /repo (ef0c81e, e38ce78, 9a2bde2, eca2cba, 61c2a75): generated and judged on every run
-# Round 7 (notes/jpatch.md): re-decided as genuine, repairs delivered as fixes/jpatch-{root-move-copy,decode-exact,swap-nested}.diff,
-# tolerated by default (oracle classes lenient / unspecified as before) until committed; VERIF_JPATCH_OPEN=<name,..>|all judges them:
-#   root-move-copy   move / copy with path "" must make the value at `from` the whole document (the library: rc 0, nothing done)
-#   decoder-prefix   members that are no "op" / "path" / "from" / "value" must be ignored, operation names must be exact
-#   swap-nested      swap of a location with a part of itself must be an error (the library: rc 0, data lost)
+# Round 7 (notes/jpatch.md): re-decided as genuine and repaired in /repo (22df63c, 63ac2d6, da6f72b): generated and judged on every run
+#   root-move-copy   move / copy with path "" must make the value at `from` the whole document (before 22df63c: rc 0, nothing done)
+#   decoder-prefix   members that are no "op" / "path" / "from" / "value" must be ignored, operation names must be exact (63ac2d6)
+#   swap-nested      swap of a location with a part of itself must be an error (before da6f72b: rc 0, data lost)
 R7_CLASSES = ("root-move-copy", "decoder-prefix", "swap-nested")
-OPEN_ON |= set(R7_CLASSES) if "all" in _open_env else set(x for x in _open_env if x in R7_CLASSES)
+OPEN_ON |= set(R7_CLASSES)
 DBL_NEAR_OPEN = [(0.5, 0.500000001), (1e-9, 2e-9), (0.0, 1e-9)]      # equal in "%.8Lf" text; and 0.0 / -0.0 differ in it
 STR_NEAR_OPEN = [("a\x00b", "a\x00c"), ("\x00a", "\x00b"),("x\x00yz", "x\x00zy")]   # same length, equal up to a 0 byte
 
@@ -1783,9 +1781,8 @@ def check(run):
                                    "either succeed with exactly the RFC result or report JBL_ERROR_CREATION with the binary document byte "
                                    "for byte as before; a document that is itself not storable must be refused by jbl_from_json",
                                    "doubles come from a fixed list whose JSON text iwstrtod reads exactly (it is not correctly rounded: "
-                                   "C13); classes on which the unmodified library is known to contradict rfc6902 4.6 are generated only "
-                                   "with VERIF_JPATCH_OPEN=all (notes/jpatch.md 'Open findings'): %s; enabled now: %s"
-                                   % (", ".join(OPEN_CLASSES), ", ".join(sorted(OPEN_ON)) or "none")])
+                                   "C13); the classes on which the library contradicted rfc6902 before its repairs (notes/jpatch.md) are "
+                                   "generated and judged on every run: %s" % ", ".join(sorted(OPEN_ON))])
 
 
 def replay(run, path):
